@@ -18,7 +18,9 @@ use std::cell::RefCell;
 use std::collections::BTreeMap;
 use std::path::{Path, PathBuf};
 
-pub const NAMES: [&str; 5] = ["alpha", "my layer.v2", "β-layer", "alpha2", "x"];
+/// the first three names (quick tier) are prefix-related on purpose: "alpha" is a prefix of "alpha2" and of the dotted
+/// "alpha.v2 layer" (whose files are alpha.v2 layer.toml / alpha.v2 layer.sbom.*), so that sloppy name matching shows
+pub const NAMES: [&str; 5] = ["alpha", "alpha2", "alpha.v2 layer", "β-layer", "x"];
 
 // ---------------- metadata types ----------------
 
@@ -772,7 +774,7 @@ fn absorb(ctx: &Ctx, h: &[Op], o: HistOutcome, sub: &str) -> bool {
 }
 
 pub fn run(ctx: &Ctx) {
-    ctx.set_rule("histories of layer requests (cached x build/launch x metadata type {generic, V1, V2} x restored-callback decisions {keep, delete, with/without cause, plain/Result shape, error} x invalid-metadata decisions {delete, replace with a valid value, causes, shapes, error}; uncached x flags), layer writes through the returned LayerRef (metadata of the three types, env over all four scopes with byte-string names, SBOM sets, exec.d sets, plain files incl. bin/ lib/) and simulated lifecycle restores (cache=true keeps dir+metadata+SBOMs without types; launch-only keeps the metadata file only; others vanish) over 3 (quick) / 5 (thorough) layer names (one with a space and a dot, one non-ASCII), executed against a real BuildContext on a temp layers directory and against a reference model, compared after EVERY step. bounded-exhaustive: all histories of length <= 3 over a reduced alphabet of 32 operations on one layer (33 824 histories) plus all histories of the shape request, write(s), restore, request over the same alphabet; sampled: histories of length <= 24 (quick) / <= 60 (thorough). Oracle: reported state == callback decisions; callback invocation log (which callback, with which metadata and path) == model; disk == model (files bytewise, content metadata via Python tomllib, SBOM files), empty layer has no entries, other layers byte-identical. Non-trivial: history contains a restore followed by a request on a layer that at that moment has a directory and at least one of {SBOM, env entry, exec.d program, metadata}; distinct = hash of the operation list.");
+    ctx.set_rule("histories of layer requests (cached x build/launch x metadata type {generic, V1, V2} x restored-callback decisions {keep, delete, with/without cause, plain/Result shape, error} x invalid-metadata decisions {delete, replace with a valid value, causes, shapes, error}; uncached x flags), layer writes through the returned LayerRef (metadata of the three types, env over all four scopes with byte-string names, SBOM sets, exec.d sets, plain files incl. bin/ lib/) and simulated lifecycle restores (cache=true keeps dir+metadata+SBOMs without types; launch-only keeps the metadata file only; others vanish) over 3 (quick) / 5 (thorough) layer names (prefix-related: 'alpha', 'alpha2', 'alpha.v2 layer' with a dot and a space; thorough adds a non-ASCII one), executed against a real BuildContext on a temp layers directory and against a reference model, compared after EVERY step. bounded-exhaustive: all histories of length <= 3 over a reduced alphabet of 32 operations on one layer (33 824 histories) plus all histories of the shape request, write(s), restore, request over the same alphabet; sampled: histories of length <= 24 (quick) / <= 60 (thorough). Oracle: reported state == callback decisions; callback invocation log (which callback, with which metadata and path) == model; disk == model (files bytewise, content metadata via Python tomllib, SBOM files), empty layer has no entries, other layers byte-identical. Non-trivial: history contains a restore followed by a request on a layer that at that moment has a directory and at least one of {SBOM, env entry, exec.d program, metadata}; distinct = hash of the operation list.");
     ctx.assume("the lifecycle is the abstraction stated in the property's quantifier, applied to the real directory by the harness");
     ctx.assume("malformed TOML and hand-edited env directories are not generated");
     ctx.set_exhaustive(true);
@@ -809,7 +811,7 @@ pub fn run(ctx: &Ctx) {
         }
     }
     ctx.class_n("exhaustive:histories", hs.len() as u64);
-    let names1 = [NAMES[0], NAMES[3]]; // a second name sharing the prefix, never requested: must stay absent
+    let names1 = [NAMES[0], NAMES[1]]; // a second name sharing the prefix, never requested: must stay absent
     let outs = par_map(&hs, ncpu(), |h| run_history(&scratch.path, h, &names1));
     for (h, o) in hs.iter().zip(outs) {
         if !absorb(ctx, h, o, "exhaustive") {
@@ -855,7 +857,7 @@ pub fn run(ctx: &Ctx) {
 pub fn replay(ctx: &Ctx, _sub: &str, case: &Value) {
     let scratch = Scratch::new("c01r");
     let (h, nn) = if case.is_array() { (history_from_json(case), 2) } else { (history_from_json(&case["history"]), case["names"].as_u64().unwrap_or(3) as usize) };
-    let names: Vec<&str> = if nn == 2 { vec![NAMES[0], NAMES[3]] } else { NAMES[..nn.min(5)].to_vec() };
+    let names: Vec<&str> = if nn == 2 { vec![NAMES[0], NAMES[1]] } else { NAMES[..nn.min(5)].to_vec() };
     let o = run_history(&scratch.path, &h, &names);
     ctx.eval();
     if let Some(f) = o.fail {
